@@ -4,6 +4,8 @@ import (
 	"fmt"
 	"go/types"
 	"path/filepath"
+	"sort"
+	"strings"
 
 	"golang.org/x/tools/go/ssa"
 )
@@ -55,6 +57,123 @@ func lemmaObligations(w *World, pkg, name string) ([]*Obligation, error) {
 
 func locksetObligations(w *World, pkg string, run *checkRun) []*Obligation { return nil }
 
-func structuralObligations(w *World, s StructSpec, run *checkRun) []*Obligation { return nil }
+// constObligation: an obligation decided by a structural scan of the SSA (back end "dataflow"); it is
+// still written out and pushed through the solver so that the evidence is uniform.
+func constObligation(name, fn string, ok bool, text string) *Obligation {
+	goal := "true"
+	if !ok {
+		goal = "false"
+	}
+	return &Obligation{Name: name, Func: fn, Kind: "dataflow", Guard: "true", Goal: goal, Text: text, vc: &FnVC{e: newEnc()}}
+}
+
+func allFunctions(w *World, pkgPath string) []*ssa.Function {
+	sp := w.spkgs[pkgPath]
+	var out []*ssa.Function
+	seen := map[*ssa.Function]bool{}
+	var walk func(f *ssa.Function)
+	walk = func(f *ssa.Function) {
+		if f == nil || seen[f] || len(f.Blocks) == 0 {
+			return
+		}
+		seen[f] = true
+		out = append(out, f)
+		for _, a := range f.AnonFuncs {
+			walk(a)
+		}
+	}
+	for _, m := range sp.Members {
+		switch x := m.(type) {
+		case *ssa.Function:
+			walk(x)
+		case *ssa.Type:
+			for _, t := range []types.Type{x.Type(), types.NewPointer(x.Type())} {
+				ms := w.prog.MethodSets.MethodSet(t)
+				for i := 0; i < ms.Len(); i++ {
+					if f := w.prog.MethodValue(ms.At(i)); f != nil && f.Pkg == sp && f.Synthetic == "" {
+						walk(f)
+					}
+				}
+			}
+		}
+	}
+	sort.Slice(out, func(i, j int) bool { return shortFuncName(out[i]) < shortFuncName(out[j]) })
+	return out
+}
+
+func structuralObligations(w *World, s StructSpec, run *checkRun) []*Obligation {
+	path := modPath + "/" + s.Pkg
+	base := filepath.Base(s.Pkg)
+	var out []*Obligation
+	switch s.Kind {
+	case "sinks_guarded":
+		// every function of the package that calls a sink is either under a claimed contract that asserts at
+		// that call, or a listed wrapper (whose callers are then the ones that assert)
+		sinks := map[string]bool{}
+		for _, k := range s.Sinks {
+			sinks[k] = true
+		}
+		claimed := map[string]bool{}
+		for _, fc := range run.cfg.Functions {
+			if fc.Pkg == s.Pkg {
+				claimed[fc.Name] = true
+			}
+		}
+		for _, f := range allFunctions(w, path) {
+			name := shortFuncName(f)
+			called := map[string]bool{}
+			for _, b := range f.Blocks {
+				for _, in := range b.Instrs {
+					if c, ok := in.(ssa.CallInstruction); ok {
+						if n := calleeShort(c.Common()); sinks[n] {
+							called[n] = true
+						}
+					}
+				}
+			}
+			for _, sink := range sortedKeys(called) {
+				oname := fmt.Sprintf("%s.%s/sink-guard[%s]", base, name, sink)
+				if why, ok := s.Exempt[name]; ok {
+					run.trusted["sink wrapper "+base+"."+name+" is exempt from the sink guard: "+why] = true
+					continue
+				}
+				ct := w.contractFor(f)
+				asserts := false
+				if ct != nil {
+					for _, ca := range ct.CallAssert {
+						if ca.Callee == sink {
+							asserts = true
+						}
+					}
+				}
+				out = append(out, constObligation(oname, base+"."+name, asserts && claimed[name],
+					fmt.Sprintf("%s calls sink %s: it must be under a claimed contract with 'call %s assert ...'", name, sink, sink)))
+			}
+		}
+	case "readonly_global":
+		// no function other than the package initialiser stores to the global
+		ok := true
+		where := ""
+		for _, f := range allFunctions(w, path) {
+			if f.Name() == "init" || strings.HasPrefix(f.Name(), "init#") {
+				continue
+			}
+			for _, b := range f.Blocks {
+				for _, in := range b.Instrs {
+					if st, isStore := in.(*ssa.Store); isStore {
+						if g, isG := st.Addr.(*ssa.Global); isG && g.Name() == s.Arg {
+							ok = false
+							where = shortFuncName(f)
+						}
+					}
+				}
+			}
+		}
+		out = append(out, constObligation(fmt.Sprintf("%s.global/readonly[%s]", base, s.Arg), base+".global", ok, "package variable "+s.Arg+" is only assigned by its initialiser "+where))
+	default:
+		run.fail("structural", "unknown structural obligation kind "+s.Kind, nil, "")
+	}
+	return out
+}
 
 func (w *World) typeByKey(e *Enc, key string) types.Type { return e.tagTy[key] }
